@@ -258,7 +258,30 @@ func (p *replica) LoadMaxBlockSize() int                          { return 1 << 
 
 // --- rig ------------------------------------------------------------------------------------------------------------
 
+var (
+	rigVSMu    sync.Mutex
+	rigVSCache = map[int]struct {
+		ks []crypto.PrivateKeyI
+		vs lib.ValidatorSet
+	}{}
+)
+
+// rigValidatorSet returns (cached) the deterministic committee of n equal validators.
 func rigValidatorSet(n int) ([]crypto.PrivateKeyI, lib.ValidatorSet) {
+	rigVSMu.Lock()
+	defer rigVSMu.Unlock()
+	if c, ok := rigVSCache[n]; ok {
+		return c.ks, c.vs
+	}
+	ks, vs := buildRigValidatorSet(n)
+	rigVSCache[n] = struct {
+		ks []crypto.PrivateKeyI
+		vs lib.ValidatorSet
+	}{ks, vs}
+	return ks, vs
+}
+
+func buildRigValidatorSet(n int) ([]crypto.PrivateKeyI, lib.ValidatorSet) {
 	ks := make([]crypto.PrivateKeyI, n)
 	cv := &lib.ConsensusValidators{}
 	for i := 0; i < n; i++ {
